@@ -42,7 +42,12 @@ def write_evidence(prop, cfg, res):
         "trusted_base": list(__import__("pyvc.runner").runner.TRUSTED_BASE) + list(getattr(cfg, "TRUSTED", [])),
         "backend_per_obligation": by_backend,
         "solver_s": round(res["solver_s"], 3),
-        "functions_under_contract": sorted(res["functions"].values(), key=lambda d: d["function"]),
+        "functions_under_contract": sorted([f for f in res["functions"].values() if not str(f.get("file", "")).startswith(VERIF)], key=lambda d: d["function"]),
+        "contract_and_spec_functions_read": sorted({f["function"] for f in res["functions"].values() if str(f.get("file", "")).startswith(VERIF)}),
+        "call_site_contracts": {
+            "assumed": [c for c in res.get("callee_contracts", []) if c["assumed"]],
+            "proved_elsewhere_and_used_modularly": [c for c in res.get("callee_contracts", []) if not c["assumed"]],
+        },
         "extraction_drops": __import__("pyvc.extract").extract.DROPPED + res["dropped"],
         "fd_domains": res["fd_domains"],
         "bounded": res["bounded"],
